@@ -3,7 +3,7 @@
    byte-string outputs); [case_ok] recomputes the outputs with the independent model and compares
    byte for byte.  Evaluated with vm_compute on the cases emitted by the Go harnesses. *)
 From DtlsV Require Import Lib.Bytes Crypto.C10Sha2 Crypto.C10Hmac Crypto.C10Prf Crypto.C10Layout
-  Crypto.C10Hkdf.
+  Crypto.C10Hkdf Crypto.C10Suites Crypto.C10Aes Crypto.C10Record.
 Open Scope N_scope.
 
 Definition c10_case := (N * N * list bytes * list N * list bytes)%type.
@@ -64,16 +64,61 @@ Definition expected_layout (fn : N) (H : hashfn) (ins : list bytes) (ns : list N
   | 29, [key; inner; cid], [e; s; v] =>
       let mac := cbc_mac_cid_as_coded H key e s v cid inner in
       Some [cbc_plaintext 16 inner mac; header12 ct_tls12_cid v e s cid (cbc_record_len 16 inner mac)]
+  | 31, [key; nonce; msg; adata], [M] => Some [ccm_seal key M nonce msg adata]
+  | 32, [key; iv; cid; payload], [e; s; t; v; tag] => Some [record12_ccm key iv cid payload e s t v tag]
+  | 33, [ek; mk; iv; payload], [e; s; t; v] => Some [record12_cbc H ek mk iv payload e s t v]
+  | 34, [ek; mk; iv; cid; inner], [e; s; v] => Some [record12_cbc_cid_as_coded H ek mk iv cid inner e s v]
+  | 35, [key; blk], [] => Some [aes_encrypt key blk]
   | 30, [key; inner; cid], [e; s; v] =>
       Some [cbc_mac_input_cid e s v cid inner;
             cbc_plaintext 16 inner (cbc_mac_cid H key e s v cid inner); [1]]
   | _, _, _ => None
   end.
 
+Definition nb (n : N) : bool := negb (n =? 0).
+
+(* function codes 40..69: HKDF and the DTLS 1.3 schedule / record protection (C10Hkdf, C10Layout) *)
+Definition expected_13 (fn : N) (H : hashfn) (ins : list bytes) (ns : list N) : option (list bytes) :=
+  match fn, ins, ns with
+  | 40, [salt; ikm], [] => Some [hkdf_extract H salt ikm]
+  | 41, [secret; label; ctx], [L] => Some [hkdf_expand_label H secret label ctx (nn L)]
+  | 42, [secret; label; msgs], [] => Some [derive_secret H secret label msgs]
+  | 43, [ecdhe; th], [] =>
+      let hs := handshake_secret H ecdhe in
+      Some [client_hs_traffic H hs th; server_hs_traffic H hs th; master_secret13 H hs]
+  | 44, [ms; th], [] => Some [client_ap_traffic H ms th; server_ap_traffic H ms th]
+  | 45, [ms; th], [] => Some [exporter_master H ms th]
+  | 46, [ms; th], [] => Some [resumption_master H ms th]
+  | 47, [cur], [] => Some [next_traffic_secret H cur]
+  | 48, [base; th], [] => Some [finished_verify_data H base th]
+  | 49, [th], [is_client] => Some [certificate_verify_input (nb is_client) th]
+  | 50, [secret], [kl] => Some [traffic_key H secret (nn kl); traffic_iv H secret; traffic_sn_key H secret (nn kl)]
+  | 51, [iv], [seq] => Some [nonce13 iv seq]
+  | 52, [mask], [sb; wire] => Some [be_enc 2 (sn_mask_apply (nb sb) wire mask)]
+  | 53, [secret; cid; plaintext; mask], [id; el; seq; ct; tag] => protect13 id secret cid plaintext mask el seq ct tag
+  | 54, [ecdhe], [] => Some [handshake_secret H ecdhe]
+  | 55, [hs], [] => Some [master_secret13 H hs]
+  | 56, [base], [] => Some [finished_key H base]
+  | 61, [exp_master; label], [L] => Some [exporter13 H exp_master label [] (nn L)]
+  | 62, [label; cr; sr], [L] => Some [p_hash H [] (label ++ cr ++ sr) (nn L)]
+  | _, _, _ => None
+  end.
+
+(* function codes 70..79: whole-suite record protection (C10Suites) *)
+Definition expected_suite (fn : N) (ins : list bytes) (ns : list N) : option (list bytes) :=
+  match fn, ins, ns with
+  | 70, [ms; cr; sr; cid; payload], [id; cl; e; s; t; v] => protect12 false id (nb cl) ms cr sr cid payload e s t v
+  | 71, [ms; cr; sr; cid; payload], [id; cl; e; s; t; v] => protect12 false id (nb cl) ms cr sr cid payload e s t v
+  | 72, [ms; cr; sr; cid; payload], [id; cl; e; s; t; v] => protect12 true id (nb cl) ms cr sr cid payload e s t v
+  | _, _, _ => None
+  end.
+
 Definition expected (c : c10_case) : option (list bytes) :=
   let '(fn, h, ins, ns, _) := c in
   if fn <? 20 then expected_prf fn (hash_of_code h) ins ns
-  else expected_layout fn (hash_of_code h) ins ns.
+  else if fn <? 40 then expected_layout fn (hash_of_code h) ins ns
+  else if fn <? 70 then expected_13 fn (hash_of_code h) ins ns
+  else expected_suite fn ins ns.
 
 Definition case_ok (c : c10_case) : bool :=
   let '(_, _, _, _, obs) := c in
